@@ -8,6 +8,8 @@ import (
 	"strings"
 	"testing"
 
+	"github.com/apache/arrow-go/v18/arrow"
+
 	"github.com/Query-farm/vgi-rpc-go/vgirpc/internal/verif/venum"
 )
 
@@ -250,11 +252,37 @@ func TestVerif_C10(t *testing.T) {
 		}
 	}
 
+	// Parameter batches: the one the method binds, and batches that fail the
+	// strict schema binding in different ways. The gate is stated on the
+	// VERSION alone: a refused version must be answered with the mismatch error
+	// whatever else is wrong with the request (a client built against another
+	// MAJOR.MINOR is precisely the client whose parameter schema differs).
+	type pshape struct {
+		name string
+		mk   func() arrow.RecordBatch
+	}
+	pshapes := []pshape{
+		{"good", func() arrow.RecordBatch { return vfI64Batch("x", 1) }},
+		{"renamed-column", func() arrow.RecordBatch { return vfI64Batch("y", 1) }},
+		{"extra-column", func() arrow.RecordBatch {
+			return vfBatchJSON(arrow.NewSchema([]arrow.Field{{Name: "x", Type: arrow.PrimitiveTypes.Int64}, {Name: "z", Type: arrow.BinaryTypes.String}}, nil), `[{"x":1,"z":"s"}]`)
+		}},
+		{"wrong-type", func() arrow.RecordBatch {
+			return vfBatchJSON(arrow.NewSchema([]arrow.Field{{Name: "x", Type: arrow.BinaryTypes.String}}, nil), `[{"x":"one"}]`)
+		}},
+		{"no-columns", func() arrow.RecordBatch { return vfEmpty(vfEmptySchema) }},
+	}
 	venum.Explore(t, venum.Cfg{Name: "version-gate", Shardable: true}, func(x *venum.X) {
 		ri := x.Choose(len(routes), "route")
 		si := x.Choose(len(servers), "server")
 		ci := x.Choose(len(clients[si]), "client")
-		rt, sv, cl := routes[ri], servers[si], clients[si][ci]
+		pi := x.Choose(len(pshapes), "params")
+		rt, sv, cl, ps := routes[ri], servers[si], clients[si][ci], pshapes[pi]
+		if rt.method == "__describe__" && pi != 0 {
+			x.Outcome("dup-describe-takes-no-params")
+			return
+		}
+		x.Note("params=%s", ps.name)
 		x.Note("route=%s server=%q(unsetAfter=%v) client present=%v value=%q", rt.name, sv.version, sv.unset, cl.present, cl.value)
 
 		vfC10Calls = 0
@@ -324,7 +352,7 @@ func TestVerif_C10(t *testing.T) {
 		if rt.method == "__describe__" {
 			req = vfNoParamsReq("__describe__", kv...)
 		} else {
-			req = vfXReq(rt.method, 1, kv...)
+			req = vfRequest(rt.method, ps.mk(), kv...)
 		}
 		var out []byte
 		var pan any
@@ -342,8 +370,24 @@ func TestVerif_C10(t *testing.T) {
 			rec, p := vfArrowPost(NewHttpServer(s), "/"+rt.method+"/init", req)
 			out, pan = rec.Body.Bytes(), p
 		}
-		sig := func(what string) string { return "C10:" + what + ":" + rt.coarse + ":" + class }
+		sig := func(what string) string {
+			if pi != 0 {
+				coarse := "malformed"
+				if !cl.present {
+					coarse = "absent"
+				} else if cl.class == "canonical" {
+					coarse = "canonical"
+				}
+				return "C10:" + what + ":" + rt.coarse + ":" + coarse + ":params-do-not-bind"
+			}
+			return "C10:" + what + ":" + rt.coarse + ":" + class
+		}
 		if pan != nil {
+			if admit && pi != 0 && rt.method != "__describe__" {
+				// after a correct admission, on parameters that do not bind: C03/C07's subject
+				x.Outcome("%s|panic-after-admission|params=%s", rt.name, ps.name)
+				return
+			}
 			x.Failf(sig("panic"), "panic escaped: %v", pan)
 			return
 		}
@@ -367,7 +411,7 @@ func TestVerif_C10(t *testing.T) {
 		if len(mismatch) > 0 {
 			gotSide = vfC10Side(mismatch[0].Message)
 		}
-		x.Outcome("%s|enforced=%v|calls=%d|mismatch=%d|other=%d|side=%s|data=%d", rt.name, enforced, vfC10Calls, len(mismatch), len(otherErr), gotSide, len(first.Data()))
+		x.Outcome("%s|enforced=%v|calls=%d|mismatch=%d|other=%d|side=%s|data=%d|params=%s", rt.name, enforced, vfC10Calls, len(mismatch), len(otherErr), gotSide, len(first.Data()), ps.name)
 
 		if rt.method == "__describe__" {
 			// describe is never refused
@@ -378,6 +422,14 @@ func TestVerif_C10(t *testing.T) {
 			d := first.Data()
 			if len(d) != 1 || d[0].Rows != 3 {
 				x.Failf(sig("describe-not-served"), "__describe__ did not return the 3-method listing: %d data batches", len(d))
+			}
+			return
+		}
+		if admit && pi != 0 {
+			// admitted version, parameters that do not bind: what happens next is
+			// parameter binding (C07), not the gate. Only "no version refusal".
+			if len(mismatch) > 0 {
+				x.Failf(sig("refused-wrongly"), "reference admits (server %q, client %q present=%v) but server refused: %s", sv.version, cl.value, cl.present, mismatch[0].Message)
 			}
 			return
 		}
